@@ -3,7 +3,7 @@
    negotiated framing mode.  The correspondence run drives a real Connection against a scripted peer, compares the
    bytes the peer received with this model, and has an independent reader of the protocol parse them. *)
 From EDP Require Import Base.Bytes Term.Term Gen.Tags Gen.ControlTable Gen.DecoderArms Codec.Encode Codec.Decode Codec.Norm
-  Dist.Control Dist.Framing Dist.Receive Dist.Send Dist.SendFacts Conc.Interleave Gen.LockScope.
+  Codec.DistHeader Codec.DistHeaderFacts Dist.Control Dist.Framing Dist.Receive Dist.Send Dist.SendFacts Conc.Interleave Gen.LockScope.
 
 (* one operation, one frame: the length prefix of the body, then the body *)
 Theorem C07_one_frame : forall negotiated order op f, send_frame negotiated order op = Some f ->
@@ -46,6 +46,24 @@ Theorem C07_pass_through_content : forall cfg st negotiated order op, uses_pass_
   exists body, frame_body negotiated order op = Some body /\
     handle_frame cfg st body = (st, to_outcome (norm ctl) (option_map norm (snd (control_of op)))).
 Proof. exact pass_through_frame. Qed.
+
+(* header mode (DIST_HDR_ATOM_CACHE negotiated): the body is 131, 68, the header of the writer's atoms in whatever order
+   the writer's set yields them (any count 1..255, both parities, short or long atoms), the control tuple and the
+   payload with cached atoms as references — read back it is delivered as exactly that control tuple and payload *)
+Theorem C07_header_content : forall cfg st negotiated order op, uses_pass_through negotiated = false ->
+  d_arms cfg = owned_arms ->
+  order <> [] -> len order <= 255 -> Forall (fun a => utf8_valid a = true) order ->
+  existsb (fun a => 65535 <? len a) order = false ->
+  let ctl := fst (control_of op) in
+  wf ctl = true -> rt_ok (d_kcmp cfg) (d_kinsert cfg) ctl ->
+  match snd (control_of op) with
+  | Some msg => wf msg = true /\ rt_ok (d_kcmp cfg) (d_kinsert cfg) msg
+  | None => True
+  end ->
+  exists body, frame_body negotiated order op = Some body /\
+    handle_frame cfg st body = (with_cache st (new_cache order (r_cache st)),
+                                to_outcome (norm ctl) (option_map norm (snd (control_of op)))).
+Proof. exact header_frame_content. Qed.
 
 (* concurrent senders: every send-side operation of the node acquires the connection's lock before its first write
    and still holds it after its last (checked on the source by the translator, Gen/LockScope.v) ... *)
